@@ -1650,7 +1650,7 @@ def _make_block_comment(text: str, prefix: str, comment: str, suffix: str, inden
     if len(suffix) > 0 and len(commented_doc_lines) > 0:
         commented_doc_lines.append(f"{' ' * indent}{suffix}")
 
-    return "\n".join(commented_doc_lines)
+    return "\n".join(ln + " ." if ln.endswith(("\\", "??/")) else ln for ln in commented_doc_lines)  # no line splice
 
 
 @template_language_filter(__name__)
